@@ -170,6 +170,14 @@ example : (run 1152 [[0x21], [0x01, 0xa1], [0xb1, 0x78]]).obs = ([⟨1, [0xa1], 
     (by intro f hf; simp at hf; subst hf; exact ⟨⟨3, 5, 1, 1⟩, ⟨1, [0xa1], []⟩, by decide, by decide, by decide, ex_frame⟩)
     (by rfl) |>.1]
   simp [ex_frame]
+/-! Non-vacuity of `run_meets_spec`: the specification finds the GET and the CSM in a stream; an oversize header that is
+    complete must close; one whose code byte is still missing may (the model closes there too, see `oversize_closes`). -/
+example : Spec.Framing.expected 1152 [0x21, 0x01, 0xa1, 0xb1, 0x78, 0x00, 0xe1]
+    = ([⟨1, [0xa1], []⟩, ⟨0xe1, [], []⟩], .open_) := by decide
+example : Spec.Framing.expected 1152 [0x21, 0x01, 0xa1, 0xb1, 0x78, 0xe0, 0xff, 0xff, 0x01]
+    = ([⟨1, [0xa1], []⟩], .mustClose) := by decide
+example : Spec.Framing.expected 1152 [0x21, 0x01, 0xa1, 0xb1, 0x78, 0xe0, 0xff, 0xff]
+    = ([⟨1, [0xa1], []⟩], .mayClose) := by decide
 example : Oversize 1152 [0xe0, 0xff, 0xff, 0x01] := Or.inr ⟨⟨4, 65808, 1, 0⟩, by decide, by decide⟩
 example : Oversize 4294967295 [0xf0, 0xff, 0xfe, 0xfe, 0xf3, 0x01] := Or.inl (by decide)
 
